@@ -662,3 +662,185 @@ for _o in list(_REG_cb.get('C01', [])):
 for _o in list(_REG_cb.get('C02', [])):
     if _o.oid in ('C02.expansion.FaFb', 'C02.expansion.I', 'C02.limits.BarrZee', 'C02.limits.zero', 'C02.equal_arguments.FPZ_FSZ'):
         _rr_static('C11', 'C02', _o.oid, _o.oid.replace('C02.', 'C11.callee.', 1))
+
+# ---------------------------------------------------------------------------------------------------
+# BOUNDED stand-in for the 1 % band itself (the property's own test, literally, through the public API): base points x every one-parameter path m -> m0 (1 + d),
+# d in {0, +-1e-13, +-1e-10, +-1e-7, +-1e-4}, through each configuration m0 = m_j, 2 m_j, m_j/2, m_j + m_k, |m_j - m_k| formed from the other masses of the point and MW, MZ, m_hSM;
+# all values finite and within 1 % of the contribution's magnitude of the straight line through the values at d = -+1e-3 (paths changing by more than 20 % are skipped)
+# ---------------------------------------------------------------------------------------------------
+BAND_THDM_SRC = r'''#include "gm2calc/THDM.hpp"
+#include "gm2calc/SM.hpp"
+#include "gm2calc/gm2_1loop.hpp"
+#include "gm2calc/gm2_2loop.hpp"
+#include "gm2calc/gm2_uncertainty.hpp"
+#include "gm2calc/gm2_error.hpp"
+#include <cstdio>
+#include <cmath>
+#include <vector>
+#include <string>
+struct P { const char* name; int type; double m[4]; double sba, tb, l6, l7, m122; };   // m = mh, mH, mA, mHp
+static bool eval(const P& p, const double m[4], double out[4]) {
+   try {
+      gm2calc::thdm::Mass_basis b; b.yukawa_type = gm2calc::thdm::int_to_cpp_yukawa_type(p.type);
+      b.mh = m[0]; b.mH = m[1]; b.mA = m[2]; b.mHp = m[3]; b.sin_beta_minus_alpha = p.sba; b.lambda_6 = p.l6; b.lambda_7 = p.l7; b.tan_beta = p.tb; b.m122 = p.m122;
+      gm2calc::SM sm; gm2calc::thdm::Config cfg; cfg.running_couplings = true;
+      const gm2calc::THDM model(b, sm, cfg);
+      out[0] = gm2calc::calculate_amu_1loop(model); out[1] = gm2calc::calculate_amu_2loop_fermionic(model); out[2] = gm2calc::calculate_amu_2loop_bosonic(model);
+      out[3] = gm2calc::calculate_uncertainty_amu_2loop(model);
+      return true;
+   } catch (const gm2calc::Error&) { return false; }
+}
+int main() {
+   const P pts[] = {
+      {"P1", 2, {125.0, 400.0, 420.0, 440.0}, 0.999, 3.0, 0.0, 0.0, 40000.0},
+      {"P2", 3, {125.0, 300.0, 250.0, 500.0}, 0.98, 20.0, 0.1, -0.1, 4000.0},
+      {"P3", 1, {110.0, 200.0, 150.0, 180.0}, -0.995, 0.7, 0.0, 0.0, 8000.0},
+      {"P4", 4, {125.09, 700.0, 650.0, 720.0}, 0.9999, 45.0, 0.0, 0.0, 10000.0},
+   };
+   const double MW = 80.379, MZ = 91.1876, MHSM = 125.09;
+   const char* cn[4] = {"1L", "2LF", "2LB", "unc"};
+   const char* mn[4] = {"mh", "mH", "mA", "mH+"};
+   const double ds[] = {0, 1e-13, -1e-13, 1e-10, -1e-10, 1e-7, -1e-7, 1e-4, -1e-4};
+   int nviol = 0, npaths = 0, nnonfinite = 0;
+   for (const auto& p : pts) for (int i = 0; i < 4; i++) {
+      std::vector<double> others;
+      for (int j = 0; j < 4; j++) if (j != i) others.push_back(p.m[j]);
+      others.push_back(MW); others.push_back(MZ); others.push_back(MHSM);
+      std::vector<double> m0s;
+      for (size_t a = 0; a < others.size(); a++) {
+         m0s.push_back(others[a]); m0s.push_back(2*others[a]); m0s.push_back(0.5*others[a]);
+         for (size_t c = a + 1; c < others.size(); c++) { m0s.push_back(others[a] + others[c]); m0s.push_back(std::fabs(others[a] - others[c])); }
+      }
+      for (double m0 : m0s) {
+         if (m0 < 20 || m0 > 3000) continue;
+         double m[4] = {p.m[0], p.m[1], p.m[2], p.m[3]};
+         auto at = [&](double d, double out[4]) { m[i] = m0*(1 + d); if (m[0] > m[1]) return false; return eval(p, m, out); };
+         double fm[4], fp[4];
+         if (!at(-1e-3, fm) || !at(1e-3, fp)) continue;
+         npaths++;
+         for (double d : ds) {
+            double f[4];
+            if (!at(d, f)) continue;
+            for (int c = 0; c < 4; c++) {
+               if (!std::isfinite(f[c])) { nnonfinite++; std::printf("NONFINITE %s %s through %.10g d=%g: %s = %g\n", p.name, mn[i], m0, d, cn[c], f[c]); continue; }
+               const double mag = std::max(std::fabs(fm[c]), std::fabs(fp[c]));
+               if (std::fabs(fp[c] - fm[c]) > 0.2*mag) continue;
+               const double line = fm[c] + (fp[c] - fm[c])*(d + 1e-3)/2e-3;
+               if (std::fabs(f[c] - line) > 0.01*mag) { nviol++; std::printf("BAND %s %s through %.10g d=%g: %s = %.6e, line %.6e (dev %.2f%%)\n", p.name, mn[i], m0, d, cn[c], f[c], line, 100*std::fabs(f[c]-line)/mag); }
+            }
+         }
+      }
+   }
+   std::printf("%d paths, %d band violations, %d non-finite\n", npaths, nviol, nnonfinite);
+   return (nviol || nnonfinite) ? 1 : 0;
+}
+'''
+
+BAND_MSSM_SRC = r'''#include "gm2calc/gm2_1loop.hpp"
+#include "gm2calc/gm2_2loop.hpp"
+#include "gm2calc/gm2_uncertainty.hpp"
+#include "gm2calc/gm2_error.hpp"
+#include "gm2calc/MSSMNoFV_onshell.hpp"
+#include <cstdio>
+#include <cmath>
+#include <vector>
+struct B { const char* name; double tb; double p[8]; };  // p = Mu, M1, M2, msl2(=ml2(1,1) root), mse2 root, MA, msq, M3
+static bool eval(const B& b, const double p[8], double out[4]) {
+   try {
+      gm2calc::MSSMNoFV_onshell model;
+      const double Pi = 3.141592653589793;
+      const Eigen::Matrix<double,3,3> U = Eigen::Matrix<double,3,3>::Identity();
+      model.set_alpha_MZ(0.0077552); model.set_alpha_thompson(0.00729735); model.set_g3(std::sqrt(4 * Pi * 0.1184));
+      model.get_physical().MFt = 173.34; model.get_physical().MFb = 4.18; model.get_physical().MFm = 0.1056583715; model.get_physical().MFtau = 1.777;
+      model.get_physical().MVWm = 80.385; model.get_physical().MVZ = 91.1876;
+      model.set_TB(b.tb); model.set_Ae(1,1,0);
+      model.set_Mu(p[0]); model.set_MassB(p[1]); model.set_MassWB(p[2]); model.set_MassG(p[7]);
+      model.set_mq2(p[6]*p[6]*U); model.set_ml2(p[3]*p[3]*U); model.set_md2(p[6]*p[6]*U); model.set_mu2(p[6]*p[6]*U); model.set_me2(p[4]*p[4]*U);
+      model.set_Au(2,2,0); model.set_Ad(2,2,0); model.set_Ae(2,2,0); model.set_MA0(p[5]); model.set_scale(500);
+      model.calculate_masses();
+      if (model.get_problems().have_problem()) return false;
+      out[0] = gm2calc::calculate_amu_1loop(model); out[1] = gm2calc::calculate_amu_2loop(model); out[2] = gm2calc::calculate_amu_1loop_non_tan_beta_resummed(model);
+      out[3] = gm2calc::calculate_uncertainty_amu_2loop(model);
+      return true;
+   } catch (const gm2calc::Error&) { return false; }
+}
+int main() {
+   const B bs[] = {{"M1", 10, {350, 150, 300, 500, 500, 1500, 500, 1000}}, {"M2", 40, {-600, 300, -500, 400, 600, 800, 1000, 2000}}, {"M3", 3, {1000, -400, 800, 350, 900, 2000, 2000, 1500}},
+                   {"M4", 50, {200, 250, 220, 300, 280, 500, 700, 900}}};
+   const double MW = 80.385, MZ = 91.1876;
+   const char* cn[4] = {"1L", "2L", "1Lnonres", "unc"};
+   const char* pn[8] = {"Mu", "M1", "M2", "msl", "mse", "MA", "msq", "M3"};
+   const double ds[] = {0, 1e-13, -1e-13, 1e-10, -1e-10, 1e-7, -1e-7, 1e-4, -1e-4};
+   int nviol = 0, npaths = 0, nnonfinite = 0;
+   for (const auto& b : bs) for (int i = 0; i < 8; i++) {
+      std::vector<double> others;
+      for (int j = 0; j < 8; j++) if (j != i) others.push_back(std::fabs(b.p[j]));
+      others.push_back(MW); others.push_back(MZ);
+      std::vector<double> m0s;
+      for (size_t a = 0; a < others.size(); a++) {
+         m0s.push_back(others[a]); m0s.push_back(2*others[a]);
+         for (size_t c = a + 1; c < others.size(); c++) { m0s.push_back(others[a] + others[c]); m0s.push_back(std::fabs(others[a] - others[c])); }
+      }
+      for (double m0 : m0s) for (int sgn = (i < 3 ? -1 : 1); sgn <= 1; sgn += 2) {
+         if (m0 < 60 || m0 > 5000) continue;
+         double p[8]; for (int j = 0; j < 8; j++) p[j] = b.p[j];
+         auto at = [&](double d, double out[4]) { p[i] = sgn*m0*(1 + d); return eval(b, p, out); };
+         double fm[4], fp[4];
+         if (!at(-1e-3, fm) || !at(1e-3, fp)) continue;
+         npaths++;
+         for (double d : ds) {
+            double f[4];
+            if (!at(d, f)) continue;
+            for (int c = 0; c < 4; c++) {
+               if (!std::isfinite(f[c])) { nnonfinite++; std::printf("NONFINITE %s %s through %.10g d=%g: %s = %g\n", b.name, pn[i], sgn*m0, d, cn[c], f[c]); continue; }
+               const double mag = std::max(std::fabs(fm[c]), std::fabs(fp[c]));
+               if (std::fabs(fp[c] - fm[c]) > 0.2*mag) continue;
+               const double line = fm[c] + (fp[c] - fm[c])*(d + 1e-3)/2e-3;
+               if (std::fabs(f[c] - line) > 0.01*mag) { nviol++; std::printf("BAND %s %s through %.10g d=%g: %s = %.6e, line %.6e (dev %.2f%%)\n", b.name, pn[i], sgn*m0, d, cn[c], f[c], line, 100*std::fabs(f[c]-line)/mag); }
+            }
+         }
+      }
+   }
+   std::printf("%d paths, %d band violations, %d non-finite\n", npaths, nviol, nnonfinite);
+   return (nviol || nnonfinite) ? 1 : 0;
+}
+'''
+
+def band_lines(wd, which):
+    from gm2v import native
+    import subprocess
+    exe = native.build_against_library(wd, BAND_THDM_SRC if which == 'thdm' else BAND_MSSM_SRC, name='band_' + which)
+    r = subprocess.run([exe], capture_output=True, text=True, timeout=600)
+    return r.stdout.splitlines()
+
+def make_band(which):
+    def replay(model, wd):
+        ls = band_lines(wd, which)
+        bad = [l for l in ls if l.startswith(('BAND', 'NONFINITE'))]
+        return bool(bad), '; '.join(bad[:6]) + (' | ' + ls[-1] if ls else '')
+    @obligation('C11.band.sweep.' + which, fns=[], backend='bounded', replay=replay)
+    def ob(ctx):
+        """BOUNDED stand-in (4 base points, every degenerate configuration formed from their masses, 9 distances each; REAL library, native doubles): every contribution and the
+        uncertainty finite, and within 1 % of the straight line through the values at relative distance -+1e-3"""
+        import tempfile, shutil, collections
+        wd = tempfile.mkdtemp(prefix='gm2v_band_')
+        try:
+            ls = band_lines(wd, which)
+        finally:
+            shutil.rmtree(wd, ignore_errors=True)
+        if not ls or 'paths' not in ls[-1]:
+            ctx.record('', ERROR, 'bounded', 0, 'no output of the band harness')
+            return
+        bad = collections.OrderedDict()
+        for l in ls:
+            if l.startswith(('BAND', 'NONFINITE')):
+                p = l.split()
+                key = p[1] + '.' + p[2] + '@' + p[4]            # base point . varied parameter @ configuration
+                bad.setdefault(key, []).append(l)
+        for key, lines in bad.items():
+            ctx.record(key, FAILED, 'bounded', 0, 'BOUNDED: ' + '; '.join(lines[:3]), solver='native execution of the real library', kind='bounded')
+        ctx.record('', PROVED, 'bounded', 0, 'BOUNDED: ' + ls[-1] + ('' if not bad else ' (failing configurations are separate goals)'), solver='native execution of the real library', kind='bounded')
+    return ob
+
+for _w in ('thdm', 'mssm'):
+    make_band(_w)
